@@ -166,7 +166,57 @@ def build_frame(fr):
     y = None
     if fr["y"] is not None:
         y = _tens(fr["y"], fr["ydtype"])
+    ctor = fr.get("ctor", "pos")          # every accepted call form of TensorFrame(feat_dict, col_names_dict, y, num_rows)
+    if ctor == "kw":
+        return TensorFrame(col_names_dict=names, feat_dict=feat_dict, num_rows=fr["num_rows"], y=y)
+    if ctor == "allpos":
+        return TensorFrame(feat_dict, names, y, fr["num_rows"])
+    if ctor == "defaults" and y is None and fr["num_rows"] is None:
+        return TensorFrame(feat_dict, names)
     return TensorFrame(feat_dict, names, y, num_rows=fr["num_rows"])
+
+
+CTORS = ["pos", "kw", "allpos", "defaults"]
+VIAS = [None, "copy", "to", "cpu", "to_kw"]
+
+
+def via(tf, how):
+    """public entry points that hand back 'the same frame': copy.copy / device transfer (all go through __copy__/_apply)"""
+    import copy as _copy
+    if how == "copy":
+        return _copy.copy(tf)
+    if how == "to":
+        return tf.to("cpu")
+    if how == "cpu":
+        return tf.cpu()
+    if how == "to_kw":
+        return tf.to(device=torch.device("cpu"))
+    return tf
+
+
+def to_index_obj(ix):
+    """the Python object of an index expression, in every representation torch offers for it: int64 / int32 index
+    tensors, contiguous or strided (a view with stride 2) tensors and masks"""
+    obj = R.to_py_index(ix)
+    if ix["t"] in ("tensor", "mask"):
+        if ix["t"] == "tensor" and ix.get("dtype") == "int32":
+            obj = obj.to(torch.int32)
+        if ix.get("nc"):
+            wide = torch.zeros(2 * obj.numel(), dtype=obj.dtype)
+            wide[::2] = obj
+            obj = wide[::2]                      # same entries, not contiguous
+    return obj
+
+
+def read_props(tf):
+    return {"num_rows": tf.num_rows, "num_cols": tf.num_cols, "stypes": [s.value for s in tf.stypes],
+            "is_empty": tf.is_empty, "len": len(tf)}
+
+
+def ref_props(o):
+    present = {s for s, _ in o["feats"]}
+    return {"num_rows": o["len"], "num_cols": sum(len(nm) for _, nm in o["names"]),
+            "stypes": [s for s in STYPES if s in present], "is_empty": not o["feats"], "len": o["len"]}
 
 
 # --------------------------------------------------------- frame expressions
@@ -194,14 +244,26 @@ def ev(e, env=None, log=None):
     if op == "build":
         return build_frame(e["frame"])
     if op == "sel":
-        return ev(e["of"], env, log)[R.to_py_index(e["idx"])]
+        return ev(e["of"], env, log)[to_index_obj(e["idx"])]
+    if op == "via":
+        return via(ev(e["of"], env, log), e["how"])
     if op == "cat":
         parts = [ev(p, env, log) for p in e["parts"]]
-        if log is None:
+        form = e.get("form", "list")            # every accepted call form of torch_frame.cat(lst, dim)
+        def call():
+            if form == "tuple":
+                return torch_frame.cat(tuple(parts), e["dim"])
+            if form == "kw":
+                return torch_frame.cat(lst=parts, dim=e["dim"])
+            if form == "utils":
+                from torch_frame.utils import cat as cat2
+                return cat2(parts, dim=e["dim"])
             return torch_frame.cat(parts, e["dim"])
+        if log is None:
+            return call()
         snaps = [full_snapshot(p) for p in parts]
         try:
-            return torch_frame.cat(parts, e["dim"])
+            return call()
         finally:
             for k, (p, before) in enumerate(zip(parts, snaps)):
                 after = full_snapshot(p)
@@ -219,7 +281,7 @@ def subst(e, env_exprs):
         return subst(env_exprs[e["i"]], env_exprs)
     if op == "build":
         return e
-    if op == "sel":
+    if op in ("sel", "via"):
         return dict(e, of=subst(e["of"], env_exprs))
     return dict(e, parts=[subst(p_, env_exprs) for p_ in e["parts"]])
 
@@ -352,6 +414,8 @@ def coq_expr(e):
         return coq_frame(e["frame"])
     if op == "sel":
         return f"(ESel {coq_expr(e['of'])} {R.coq_index(e['idx'])})"
+    if op == "via":
+        return coq_expr(e["of"])                 # copy / device transfer: the same frame in the pure model
     if op == "cat":
         return f"(ECat {C.clist(e['parts'], coq_expr)} {C.cz(e['dim'])})"
     raise ValueError(op)
@@ -499,6 +563,8 @@ def ref_ev(e):
         return ref_build(e["frame"])
     if op == "sel":
         return ref_select(ref_ev(e["of"]), e["idx"])
+    if op == "via":
+        return ref_ev(e["of"])
     if op == "cat":
         return ref_cat([ref_ev(p) for p in e["parts"]], e["dim"])
     raise ValueError(op)
